@@ -95,6 +95,11 @@ func checkC02(r *Result) {
 	}
 	seen := map[string]bool{}
 	usedKeys := map[string]bool{}
+	for _, e := range errs { // entries that name an origin exactly are taken before any origin looks for a stand-in
+		if _, ok := c02Table[e.o.Key()]; ok {
+			usedKeys[e.o.Key()] = true
+		}
+	}
 	for _, e := range errs {
 		k := FuncName(e.hook) + " <- " + e.o.Key()
 		if seen[k] {
